@@ -73,6 +73,22 @@ class TSeq(Ty):
 _DT_CACHE: dict[str, Any] = {}
 
 
+class TMap(Ty):
+    """total map key -> value (python dict / defaultdict with a default), as a z3 array"""
+
+    def __init__(self, key: Ty, val: Ty):
+        self.keyt, self.val = key, val
+
+    def key(self):
+        return (self.keyt, self.val)
+
+    def sort(self):
+        return z3.ArraySort(self.keyt.sort(), self.val.sort())
+
+    def __repr__(self):
+        return f"Map[{self.keyt!r},{self.val!r}]"
+
+
 class TOpt(Ty):
     """None | value, as a datatype (used where an optional has to live inside a z3 term)."""
 
@@ -206,6 +222,8 @@ def _sort_name(t: Ty) -> str:
         return "O" + _sort_name(t.elem)
     if isinstance(t, TTuple):
         return "T" + "".join(_sort_name(i) for i in t.items) + "E"
+    if isinstance(t, TMap):
+        return "M" + _sort_name(t.keyt) + _sort_name(t.val)
     if isinstance(t, TRec):
         return "R" + t.name
     raise EngineUnsupported(f"sort name of {t!r}")
@@ -259,6 +277,12 @@ class VTuple(Val):
 @dataclass(eq=False)
 class VRec(Val):
     ty: TRec
+    t: Any
+
+
+@dataclass(eq=False)
+class VMap(Val):
+    ty: "TMap"
     t: Any
 
 
@@ -405,7 +429,7 @@ def ty_of_val(v: Val) -> Ty:
         return TSeq(v.elem)
     if isinstance(v, VRec):
         return v.ty
-    if isinstance(v, VOpt):
+    if isinstance(v, (VOpt, VMap)):
         return v.ty
     if isinstance(v, VTuple):
         return TTuple([ty_of_val(i) for i in v.items])
@@ -426,7 +450,7 @@ def to_term(v: Val, ty: Ty | None = None):
         return v.t
     if isinstance(v, VSeq):
         return v.t
-    if isinstance(v, VRec):
+    if isinstance(v, (VRec, VMap)):
         return v.t
     if isinstance(v, VTuple):
         assert isinstance(ty, TTuple), (v, ty)
@@ -447,6 +471,8 @@ def from_term(t, ty: Ty) -> Val:
         return VRec(ty, t)
     if isinstance(ty, TOpt):
         return VOpt(ty, t)
+    if isinstance(ty, TMap):
+        return VMap(ty, t)
     if isinstance(ty, TTuple):
         return VTuple([from_term(ty.get(t, k), it) for k, it in enumerate(ty.items)])
     raise EngineUnsupported(f"from_term {ty!r}")
